@@ -1,6 +1,8 @@
 import HapModel.Drv.Util
 import HapModel.Advert
 import HapModel.AdvertSys
+import HapModel.AdvertLife
+import Proofs.Advert   -- core only: the specification-side decoders / validity predicates
 namespace Hap.Drv.Advert
 open Lean Hap Hap.Drv Hap.Advert Hap.AdvertSys
 
@@ -51,6 +53,35 @@ def valOpOf (j : Json) : R (Nat × Nat × (String → String)) := do
   | .arr #[a, i, .str v] => pure (← asNat a, ← asNat i, fun _ => v)
   | _ => throw "value op must be [aid, iid, value]"
 
+/-- the driver's stand-in for SHA-512 over the sorted JSON: the compact JSON text of the
+    value-free rendering (distinct renderings give distinct texts) -/
+def renderHash (r : NoVal String) : String := (jnoval r).compress
+
+/-- one operation of an accessory's life: ["restart", db] | ["value", aid, iid, v] | ["mutate", db] |
+    ["configChanged"] | ["persist"] -/
+def lifeOpOf (j : Json) : R (Hap.AdvertLife.Op String String) := do
+  match j with
+  | .arr #[.str "restart", .arr db] => pure (.restart (← db.toList.mapM accOf))
+  | .arr #[.str "mutate", .arr db] => do
+    let d ← db.toList.mapM accOf
+    pure (.mutate fun _ => d)
+  | .arr #[.str "value", a, i, .str v] => pure (.value (← asNat a) (← asNat i) fun _ => v)
+  | .arr #[.str "configChanged"] => pure .configChanged
+  | .arr #[.str "persist"] => pure .persist
+  | _ => throw "life op must be [restart, db] | [value, aid, iid, v] | [mutate, db] | [configChanged] | [persist]"
+
+/-- the life run op by op; per op: live c#, c# in the file, "file hash = live hash", and the
+    value-free rendering of the live database (compared with the real hash by equality classes) -/
+def lifeRun (l : Hap.AdvertLife.Life String String String) :
+    List (Hap.AdvertLife.Op String String) → List Json
+  | [] => []
+  | op :: rest =>
+    let l' := Hap.AdvertLife.step renderHash l op
+    Json.mkObj [("cfg", Json.num l'.st.cfg),
+                ("disk_cfg", jopt (fun (d : Cfg String) => Json.num d.cfg) l'.disk),
+                ("disk_synced", Json.bool (l'.disk.map (·.hsh) == some l'.st.hsh)),
+                ("hash_is_live", Json.bool (l'.st.hsh == some (renderHash (renderNoVal l'.db))))] :: lifeRun l' rest
+
 def clientOpt (j : Json) (k : String) : R (Option Nat) := do
   match j.getObjVal? k with
   | .ok (.num _) => pure (some (← getNat j k))
@@ -74,19 +105,27 @@ def stepOf (j : Json) : R Step := do
   | "taskDone" => pure (.taskDone (← getNat j "i"))
   | "execRun" => pure (.execRun (← getNat j "i"))
   | "loopRun" => pure (.loopRun (← getNat j "i"))
+  | "configChanged" => pure .configChanged
+  | "appRefresh" => pure .appRefresh
+  | "appUnpair" => pure (.appUnpair (← getNat j "client"))
   | _ => throw s!"unknown step {kind}"
+
+def jtxt (txt : List (String × String)) : Json :=
+  Json.arr (txt.map fun (k, v) => Json.arr #[Json.str k, Json.str v]).toArray
 
 def jobs (o : Obs) : Json :=
   match o with
   | .write c r => Json.arr #["write", Json.num c, Json.num r]
   | .cipher c r => Json.arr #["cipher", Json.num c, Json.num r]
   | .publish r txt =>
-    Json.arr #["publish", Json.num r, Json.str ((Hap.Advert.lookup "sf" txt).getD "?")]
+    -- the whole TXT record of the refresh, and its cause (request id / null = application)
+    Json.arr #["publish", jopt (fun (n : Nat) => Json.num n) r, jtxt txt]
 
 def infoOf (j : Json) : R Info := do
+  let mac := (← getStr j "mac").toList
   pure { display := ← getChars j "name", category := ← getNat j "category",
-         mac := (← getStr j "mac").toList, cfg := ← getNat j "cfg",
-         paired := ← getBool j "paired", setupHash := ← getStr j "sh" }
+         mac := mac, cfg := ← getNat j "cfg",
+         paired := ← getBool j "paired", setupHash := setupHash (← getStr j "setup_id").toList mac }
 
 def handle (j : Json) : R Json := do
   let op ← getStr j "op"
@@ -130,18 +169,58 @@ def handle (j : Json) : R Json := do
       | .arr #[c, .bool a] => pure (← asNat c, a)
       | _ => throw "paired entry must be [client, admin]"
     let steps ← (← getArr j "steps").toList.mapM stepOf
-    let info : Info := { display := ['x'], category := 1, mac := [], cfg := 1, paired := false, setupHash := "" }
+    -- the accessory the script runs on (name, category, mac, configuration number at start, setup hash)
+    let mac := (← getStr j "mac").toList
+    let info : Info := { display := ← getChars j "name", category := ← getNat j "category",
+                         mac := mac, cfg := ← getNat j "cfg", paired := false,
+                         setupHash := setupHash (← getStr j "setup_id").toList mac }
     -- verified controller per connection: [[conn, client], ...]
     let sessions ← (← getArr j "sessions").toList.mapM fun e => do
       match e with
       | .arr #[k, c] => pure (← asNat k, ← asNat c)
       | _ => throw "sessions entry must be [conn, client]"
-    let s := run (init info paired sessions) steps
+    let safe := match j.getObjVal? "safe" with
+      | .ok (.bool b) => b
+      | _ => false
+    let s := run (init info paired sessions safe) steps
     pure (Json.mkObj [("log", Json.arr (s.log.reverse.map jobs).toArray),
                       ("paired", Json.arr (s.paired.map fun (c, a) => Json.arr #[Json.num c, Json.bool a]).toArray),
                       ("pending", Json.num (s.execQ.length + s.loopQ.length)),
                       ("closed", Json.arr (s.closed.map fun (k : Nat) => Json.num k).toArray),
-                      ("adv_sf", jopt Json.str (advertisedSf (initialSf info paired) s.log))])
+                      ("cfg", Json.num s.info.cfg),
+                      ("registered", jtxt (initialRecord info paired)),
+                      ("adv", jtxt (advertised (initialRecord info paired) s.log)),
+                      ("adv_sf", jopt Json.str (advertisedSf (initialRecord info paired) s.log))])
+  | "life" =>
+    -- the hash is the JSON text of the value-free rendering (collision-free)
+    let ops ← (← getArr j "ops").toList.mapM lifeOpOf
+    -- "cfg0": an earlier life left this number (and no hash) in the file; reachable from `life0`
+    -- by cfg0 - 1 `config_changed` calls
+    let l0 : Hap.AdvertLife.Life String String String :=
+      match j.getObjVal? "cfg0" with
+      | .ok (.num n) => { Hap.AdvertLife.life0 with disk := some { cfg := n.mantissa.toNat, hsh := none } }
+      | _ => Hap.AdvertLife.life0
+    pure (Json.mkObj [("ok", Json.arr (lifeRun l0 ops).toArray)])
+  | "spec" =>
+    -- the specification-side definitions the theorems are stated with (Proofs/Advert.lean), run
+    -- on concrete labels / URIs so that they can be compared with the independent Python
+    -- validators (harness/ref/dnslabel.py, harness/ref/xhm.py)
+    let inst ← getChars j "inst"
+    let host ← getChars j "host"
+    let uri := (← getStr j "uri").toList
+    let d := match xhmDecode uri with
+      | some f => Json.mkObj [("version", Json.num f.version), ("reserved", Json.num f.reserved),
+                              ("category", Json.num f.category), ("flags", Json.num f.flags),
+                              ("code", Json.num f.code), ("setup_id", jstr f.setupId)]
+      | none => Json.null
+    pure (Json.mkObj [("inst_ok", Json.bool (decide (ValidInstanceLabel inst))),
+                      ("host_ok", Json.bool (decide (ValidHostLabel host))), ("xhm", d)])
+  | "ident" =>
+    -- the hypotheses of C18_names_valid_mac_tail / C18_xhm_pin_roundtrip on a generated identity
+    let mac := (← getStr j "mac").toList
+    let pin := (← getStr j "pin").toList
+    pure (Json.mkObj [("mac_ok", Json.bool (decide (MacTailOk mac))),
+                      ("pin_ok", Json.bool (decide (PinShape pin))), ("code", Json.num (pinValue pin))])
   | "consts" =>
     -- the constants the model fixes, for comparison with the ones in the source
     pure (Json.mkObj [("MAX_CONFIG_VERSION", Json.num MAX_CONFIG_VERSION),
